@@ -28,7 +28,7 @@ impl Prev {
 }
 impl Slot {
     #[verifier::external_body]
-    fn new(signal: c_int) -> (r: Result<Self, Error>)
-        ensures r.is_ok() ==> r.unwrap().prev.signal == signal && r.unwrap().actions@ == Map::<ActionId, Arc<Action>>::empty()
+    fn new(signal: c_int, tr: &mut Ghost<Seq<REv>>) -> (r: Result<Self, Error>)
+        ensures final(tr)@ == old(tr)@.push(install_ev(signal)), r.is_ok() ==> r.unwrap().prev.signal == signal && r.unwrap().actions@ == Map::<ActionId, Arc<Action>>::empty()
     { unimplemented!() }
 }
